@@ -1605,6 +1605,11 @@ static size_t produceResultArrayBinary(scpi_t * context, const void * array, siz
                 break;
         }
 
+        if ((count == 0) && (item_size > 1)) {
+            /* no element closed the block: an empty block is complete right after its header */
+            result += SCPI_ResultArbitraryBlockData(context, array, 0);
+        }
+
         return result;
     }
 }
